@@ -8,7 +8,8 @@ THEOREMS = [
     "Portus.C07.libccp_measure_decodes", "Portus.C07.libccp_ready_decodes",
     "Portus.C07.decode_encode", "Portus.C07.decode_concat", "Portus.C07.check_model",
 ]
-RELATION = "serialize(m1);…;serialize(mk) concatenated, then Msg::from_buf iterated over the bytes"
+RELATION = ("serialize(m1);…;serialize(mk) concatenated, then Msg::from_buf iterated over the bytes; and the ready / create / measurement / "
+            "close messages emitted by the REAL libccp (C driver) decoded by the real portus decoder vs the values libccp was given")
 RULE = ("every algorithm-name length 0..64 (incl. absent, empty, 63, 64 and multi-byte UTF-8), every field count "
         "0..255, boundary and random u32/u64 values, count fields that do not match the value list, and random "
         "concatenations of 1..8 messages. non-trivial = all messages in range and the round trip result is a "
@@ -87,3 +88,76 @@ def oracle(c, impl_res):
     if c.cmd != "RT":
         return None
     return ("ORC", "C07 %s @@ %s" % (c.args, impl_res))
+
+
+# ------------------------------------------------------------------ messages emitted by the REAL libccp
+NEEDS_CVM = True
+REPORT_SRC = ("(def (Report (a 0) (b 0) (c 0) (volatile d 0))) (when true (:= Report.a Ack.bytes_acked) (:= Report.b Flow.rate_outgoing) "
+              "(:= Report.c Flow.rtt_sample_us) (:= Report.d (+ Report.d Ack.packets_acked)) (report))")
+
+
+def extra(ctx):
+    """the create, measurement, ready and close messages that libccp 1.2.0 itself emits (C driver around its unmodified sources)
+    must decode, by the real portus decoder, to the values libccp was given - and the Lean decoder must agree"""
+    import struct
+    import core
+    rng = ctx.rng
+    fails, n_cr, n_ms, n_rd, n_cl = [], 0, 0, 0, 0
+    img_res = core.run_impl(["CMP 0 %s - -" % REPORT_SRC.encode().hex()]).get("0", "")
+    if not img_res.startswith("OK "):
+        return ([{"property": ID, "kind": "no-failing-input-found", "relation": "report program for the libccp cross-check compiles",
+                  "detail": img_res}], {})
+    img = bytes.fromhex(img_res.split(" ")[1])
+    ne = 1
+    ni = (len(img) - 16 * ne) // 16
+    inst = struct.pack("<HHIIII", 2, 20 + len(img), 0, 7, ne, ni) + img
+    B32 = [0, 1, 2**31 - 1, 2**31, 2**32 - 1]
+    scripts, expect = [], {}
+    for i in range(400 if ctx.thorough else 60):
+        name = bytes(rng.choice(b"abcdefghijklmnopqrstuvwxyz_0123456789-") for _ in range(rng.choice([0, 0, 1, 2, 4, 8, 31, 32, 62, 63])))
+        vals = [rng.choice(B32 + [rng.getrandbits(32)]) for _ in range(6)]
+        acked = rng.choice(B32 + [rng.getrandbits(32)])
+        rate = rng.choice([0, 1, 2**32, 2**63, 2**64 - 1, rng.getrandbits(64)])
+        rtt = rng.choice([1, 2**32 - 1, 2**32, 2**64 - 1, rng.getrandbits(64) | 1])
+        pk = rng.choice([0, 1, 7, 2**31])
+        prims = [acked, 0, 0, 0, 0, 0, pk, 0, 0, 0, 0, 0, rate, rtt, 0]
+        ops = ["M " + inst.hex(), "S %d %d %d %d %d %d %s" % (*vals, name.hex() or "-"),
+               "M " + struct.pack("<HHIII", 4, 16, 1, 7, 0).hex(), "T 10",
+               "I 1 10 10 " + ",".join(str(p) for p in prims), "T 20", "I 1 10 10 " + ",".join(str(p) for p in prims), "F 1"]
+        scripts.append("VM %d %s" % (i, " ; ".join(ops)))
+        expect[str(i)] = {
+            "ready": "OK RD 1 12",
+            "create": "OK CR 1 %d %d %d %d %d %d %s 96" % (*vals, ("s:" + name.hex()) if name else "-"),
+            "ms1": "OK MS 1 7 4 %d,%d,%d,%d %d" % (acked, rate, rtt, pk, 48),
+            "ms2": "OK MS 1 7 4 %d,%d,%d,%d %d" % (acked, rate, rtt, pk, 48),   # d is volatile: reset after the first report
+            "close": "OK MS 1 0 0 - 16",
+        }
+    out = core.run_cvm(scripts)
+    dec_lines, want = [], {}
+    for sid, r in out.items():
+        parts = r.split(" | ")
+        try:
+            msgs = {"ready": parts[0].split(" ")[2], "create": parts[2].split(" ")[2], "ms1": parts[5].split(" ")[-1],
+                    "ms2": parts[7].split(" ")[-1], "close": parts[8].split(" ")[-1]}
+        except IndexError:
+            fails.append({"property": ID, "kind": "no-failing-input-found", "relation": "libccp driver answered the script", "detail": r[:500]})
+            continue
+        for k, hx in msgs.items():
+            cid = "%s-%s" % (sid, k)
+            dec_lines.append("DEC %s %s" % (cid, hx))
+            want[cid] = (expect[sid][k], hx)
+    impl = core.run_impl(dec_lines)
+    model = core.run_model(dec_lines)
+    for cid, (w, hx) in want.items():
+        got = impl.get(cid)
+        kind = cid.split("-")[1]
+        if got != w or model.get(cid) != w:
+            fails.append({"property": ID, "kind": "failing-input", "case": "DEC %s %s" % (cid, hx),
+                          "relation": "a %s message emitted by the real libccp decodes to the values libccp was given" % kind,
+                          "given_to_libccp": w, "decoded_by_portus": got, "decoded_by_model": model.get(cid)})
+        n_cr += kind == "create"
+        n_ms += kind in ("ms1", "ms2")
+        n_rd += kind == "ready"
+        n_cl += kind == "close"
+    return fails[:5], {"libccp_emitted_messages_decoded": {"create": n_cr, "measure": n_ms, "ready": n_rd, "close": n_cl,
+                                                           "all_equal_to_values_given_to_libccp": not fails}}
